@@ -32,6 +32,8 @@ DECIDED = [
     "R-C16-TYPESTATE (connection): a Message handle is created on the connection of the queue it was taken from (connection propagation rule)",
     "R-C16-CALLBACKS (writers): the lazy result slot is written only by set_result / set_exception (directly or through their private helper)",
     "R-C16-CATEGORY (round 5): category comparisons by equality; Message.__init__ defaults exactly a None category to NORMAL; R-C16-CALLBACKS: the callback loop iterates the live list (a callback registered by a running callback runs)",
+    "R-C16-EAGER (round 6): an eager action performs the action it is named after and no other; an eager response inside a dependency propagates out of the gathers (C18 chain reused)",
+    "R-C16-AWAITED: in the files this property is anchored in, no bare statement calls a coroutine function (the operation would never run)",
 ]
 NOT_DECIDED = ["user code catching BaseException inside an actor (outside the analysed program)"]
 ASSUMPTIONS = ["Message actions are only reachable through the methods analysed (no monkey-patching)"]
@@ -47,6 +49,15 @@ ACTIONS = {
 
 
 def run(ctx: Ctx) -> None:
+    from .shared import every_operation_awaited
+
+    every_operation_awaited(ctx, "R-C16-AWAITED")  # in the files this property is anchored in, no asynchronous operation is created and dropped
+    from .C18 import DEPENDS, chain
+
+    with ctx.as_rule("R-C16-EAGER"):
+        # an eager response given inside a dependency (_NoAction, a BaseException) propagates out of the gathers: it is never turned into a value, so the actor body does not run after it
+        for q, provider in ((f"{DEPENDS}.resolve", "self._fn"), (f"{C.PROCESSOR}._actor_run", "actor.fn")):
+            chain(ctx, ctx.func(q), provider, "R-C16-EAGER")
     from .shared import category_equality
 
     category_equality(ctx, "R-C16-CATEGORY")
